@@ -331,10 +331,33 @@ def r10_6(ctx):
     if fn is None:
         raise AnalysisError('EchoPort._send not found')
     ctx.fn(fn)
-    calls = [c for c in astq.calls(fn.node) if unparse(c.func) == 'self._messages.append']
-    ok = len(calls) == 1 and len(calls[0].args) == 1 and isinstance(calls[0].args[0], ast.Name) and calls[0].args[0].id == fn.params()[1]
-    ctx.require(ok, 'R10.6', 'EchoPort._send', ctx.where(fn), 'EchoPort._send does not append exactly its argument to the queue',
+    # by execution: what the hook is given is what ends up at the tail of the port's queue, the very object, once; what was
+    # queued before stays in front of it (send() hands it a copy, so the sender's object is not the one that is queued)
+    from ..absint import AObj
+    ai = pm.make_interp(ctx)
+    pm.device_double(ai, ctx)
+    holder = {}
+
+    def thunk():
+        port = pm.new_port(ai, ctx, 'EchoPort', [], {})
+        m0, m1, m2 = pm.note(ctx, 1), pm.note(ctx, 2), pm.note(ctx, 3)
+        holder.update(port=port, m=(m0, m1, m2))
+        port.attrs['_messages'].items.append(m0)
+        ai.call_function(fn, [port, m1], {})
+        pm.call(ai, ctx, port, 'send', [m2])
+        return port
+    outs = ai.explore(thunk)
+    ok = len(outs) == 1 and outs[0].kind == 'return'
+    q = None
+    if ok:
+        q = holder['port'].attrs['_messages'].items
+        m0, m1, m2 = holder['m']
+        ok = len(q) == 3 and q[0] is m0 and q[1] is m1 and q[2] is not m2 and isinstance(q[2], AObj) and q[2].attrs == m2.attrs
+    ctx.require(ok, 'R10.6', 'EchoPort._send', ctx.where(fn),
+                f'EchoPort._send does not append exactly its argument to the queue (queue after _send(m1) and send(m2) on a port holding m0: {q if q is not None else outs})',
                 construct=f'{fn.qname}::append')
+    for qn in ai.inlined:
+        ctx.functions.add(qn)
 
 
 def r10_7(ctx):
@@ -682,6 +705,50 @@ def r10_unbounded(ctx):
     parsershape.check_parser_init(ctx, 'R10.11')
 
 
+def r10_hook_order(ctx):
+    """Received in the order sent, also with two receivers on one port: receive() hands back what the device hook returns
+    *before* it looks at the port's queue, so a hook that fills the queue must put everything it takes in there - a message
+    returned directly would overtake the ones an earlier call (of another thread) left in the queue."""
+    from ..absint import AObj
+    mp = ctx.p.cls(P, 'MultiPort')
+    o, hook = ctx.p.lookup_method(mp, '_receive')
+    if hook is None:
+        raise AnalysisError('MultiPort._receive not found')
+    ctx.fn(hook)
+    w = ctx.where(hook)
+    n = 0
+    for block in (False, True):
+        ai = pm.make_interp(ctx)
+        pm.device_double(ai, ctx)
+        holder = {}
+
+        def thunk():
+            child = pm.new_port(ai, ctx, 'EchoPort', [], {})
+            multi = pm.new_port(ai, ctx, 'MultiPort', [[child]], {})
+            m1, m2, m3 = pm.note(ctx, 1), pm.note(ctx, 2), pm.note(ctx, 3)
+            # what an earlier call left behind in the port's own queue, and a newer message waiting in the child
+            multi.attrs['_messages'].items.extend([m1, m2])
+            child.attrs['_messages'].items.append(m3)
+            holder.update(multi=multi, msgs=(m1, m2, m3))
+            ai.sleeps = 0
+            return ai.call_function(hook, [multi], {'block': block})
+        outs = ai.explore(thunk)
+        n += 1
+        ok = len(outs) == 1 and outs[0].kind == 'return'
+        q = None
+        if ok:
+            q = holder['multi'].attrs['_messages'].items
+            m1, m2, m3 = holder['msgs']
+            ok = outs[0].value is None and len(q) == 3 and q[0] is m1 and q[1] is m2 and isinstance(q[2], AObj) and q[2].attrs == m3.attrs
+        ctx.require(ok, 'R10.14', f'MultiPort._receive(block={block}) with two earlier messages queued', w,
+                    f'the hook returns {outs[0].value if len(outs) == 1 and outs[0].kind == "return" else outs!r} and leaves the queue {q!r}: '
+                    'the newer message must go behind the two that are queued, nothing may be handed back past them',
+                    construct=f'{hook.qname}::overtakes-queue')
+        for qn in ai.inlined:
+            ctx.functions.add(qn)
+    ctx.floor('R10.14', n, 2)
+
+
 def r10_socket_iteration(ctx):
     """Received exactly once - also the messages that arrive together with the end of the stream: a socket port that closes
     itself inside a receive call still hands out every complete message it took in (shared with C18 R18.1)."""
@@ -689,5 +756,12 @@ def r10_socket_iteration(ctx):
     ctx.borrow(c18.r18_1, 'R10.13')
 
 
-RULES = [('R10.13', r10_socket_iteration), ('R10.12', r10_multi_ports), ('R10.11', r10_unbounded), ('R10.10', r10_shared_args), ('R10.8', r10_exec), ('R10.9', r10_abandoned), ('R10.1', r10_1), ('R10.2', r10_2), ('R10.3', r10_3), ('R10.4', r10_4), ('R10.5', r10_5), ('R10.6', r10_6), ('R10.7', r10_7)]
+def r10_live_socket(ctx):
+    """Received - not merely taken in: on a connection that stays open, complete messages that arrived in one segment come
+    out of the next polls (a reader that buffers in user space hides them from select()) - shared with C18 R18.6."""
+    from . import c18
+    ctx.borrow(c18.r18_live, 'R10.15')
+
+
+RULES = [('R10.15', r10_live_socket), ('R10.14', r10_hook_order), ('R10.13', r10_socket_iteration), ('R10.12', r10_multi_ports), ('R10.11', r10_unbounded), ('R10.10', r10_shared_args), ('R10.8', r10_exec), ('R10.9', r10_abandoned), ('R10.1', r10_1), ('R10.2', r10_2), ('R10.3', r10_3), ('R10.4', r10_4), ('R10.5', r10_5), ('R10.6', r10_6), ('R10.7', r10_7)]
 THOROUGH_RULES = [('R10-backends', r10_backends)]
